@@ -1,4 +1,225 @@
-import Ebv.Model.CondClass
+import Ebv.Lemmas.CondProg
+/-! # C03 — conditional blocks run exactly the branch the condition selects
+
+Model: `Ebv.Gen` + `Ebv.Model.GenCond` (comparisons, `with`/`Else`, placeholders patched by index, the
+`AndComparison` splice), tied to ebpfcat/ebpf.py by exact opcode-list correspondence (harness/vh/props/c03.py).
+Proof chain (Lemmas/Cond*.lean):
+
+* `Ebpf.segRun_of_exec`, `SegRun.append`, `JumpRun.*` — the closed-segment lemmas: code whose jumps are forward and
+  stay inside the segment runs, in every program `pre ++ seg ++ post`, from its first instruction to the one behind
+  it; `Ebpf.run_of_reach` turns this into `Ebpf.run`;
+* `Gen.calc_none`, `Gen.cmpCore_correct` — `SimpleComparison.compare` up to the placeholder, on top of C01's
+  `calc_correct` (width `None`, the widening pair, release of the operand registers);
+* `Gen.cond_correct` — induction on the condition tree: the code emitted by `compare negative`, patched by `target`
+  for any position `L` behind it, falls through iff truth = ¬negative-sense and otherwise reaches exactly `L`,
+  changing no owned register and no memory (`mtruth`: machine level; `mtruth_eq_truth`: = Python integers under
+  the precondition);
+* `Gen.with_correct` — induction on statements (`with`, `with … as Else` incl. the JSET splice, sequences, C01's
+  assignments): the emitted code is a closed segment realising the structured big-step semantics;
+* below: programs in terms of `Ebpf.run`, the decidable hypotheses, refutations of the defect classes. -/
 namespace Ebv.C03
-theorem stub : True := trivial
+open Ebv.Ebpf Ebv.Gen Ebv.C01
+
+/-- **C03 at machine level** (no precondition on the inputs): for every statement program whose conditions and
+assignments satisfy `okB`, if the generator accepts it, then from every machine state the emitted code, run by
+`Ebpf.run` from its first instruction, falls out at its end, having executed exactly the branches the conditions'
+machine-level truth values select (`KStmt.sem`). -/
+theorem C03_core (p : CProg) (k : KStmt) (code : List Insn) (hcomp : compileS (layout p.vars) p.body = some k)
+    (hok : k.okB p.owned = true) (hemit : emitCProg p = .ok code) (σ : State) :
+    ∃ σ', run code (code.length + 1) { σ with pc := 0 } = .fell { σ' with pc := code.length } ∧
+      k.sem CObj.mtruth p.owned σ σ' := by
+  unfold emitCProg at hemit
+  rw [emitS_compile _ _ _ hcomp] at hemit
+  split at hemit
+  · rename_i u g' hg
+    cases hemit
+    cases u
+    obtain ⟨_, _, seg, hcode, hrun⟩ := with_correct k p.owned (KStmt.okB_sound k _ hok)
+      { code := [], owners := p.owned, stack := 0 } g' (Sub.refl _) hg
+    simp only [List.nil_append] at hcode
+    obtain ⟨σ', hseg, hsem⟩ := hrun σ
+    refine ⟨σ', ?_, hsem⟩
+    have hr := hseg [] []
+    simp only [List.nil_append, List.append_nil, List.length_nil, Nat.zero_add] at hr
+    rw [hcode]
+    exact run_of_reach hr rfl _ (by simp)
+  · cases hemit
+
+/-- every hypothesis of `C03_partial` as one decidable predicate on the program -/
+def progOkC (p : CProg) : Bool :=
+  match compileS (layout p.vars) p.body with
+  | some k => k.okB p.owned && k.zokB
+  | none => false
+
+/-- **C03 (partial)** — conditional blocks run exactly the branch the condition selects.  For every statement
+program (assignments, `with cond:`, `with cond as Else:` / `with Else:`, nested and sequenced; conditions built from
+comparisons, bit tests, `~`, `&`, `|`) that satisfies `progOkC` and that the generator accepts, and every machine
+state: the emitted code falls out at its end (control continues behind every construct), and along the way every
+`with` body ran iff its condition — evaluated over Python integers on the state in front of it — was true, the
+`Else` body iff it was false, whenever the compared values fit the width of the comparison (`CObj.pre`); evaluating
+a condition changed no owned register and no memory. -/
+theorem C03_partial (p : CProg) (code : List Insn) (hok : progOkC p = true) (hemit : emitCProg p = .ok code) (σ : State) :
+    ∃ k, compileS (layout p.vars) p.body = some k ∧
+      ∃ σ', run code (code.length + 1) { σ with pc := 0 } = .fell { σ' with pc := code.length } ∧
+        k.semZ p.owned σ σ' := by
+  unfold progOkC at hok
+  split at hok
+  · rename_i k hk
+    simp only [Bool.and_eq_true] at hok
+    obtain ⟨σ', hrun, hsem⟩ := C03_core p k code hk hok.1 hemit σ
+    exact ⟨k, hk, σ', hrun, sem_semZ k _ σ σ' hok.2 hsem⟩
+  · cases hok
+
+/-! ## the full-strength statement and its refutation -/
+
+def operandTypedB (o : List Nat) (e : Expr) : Bool := leavesOwnedB o e && e.frag && e.ringOnly
+
+def _root_.Ebv.Gen.CObj.typedB (o : List Nat) : CObj → Bool
+  | .simple _ sg l r => operandTypedB o l && operandTypedB o r && (sg == (l.signed || r.signed))
+  | .bits l r => operandTypedB o l && operandTypedB o r
+  | .andor _ a b => a.typedB o && b.typedB o
+  | .inv a => a.typedB o
+
+def _root_.Ebv.Gen.KStmt.typedB : List Nat → KStmt → Bool
+  | _, .skip => true
+  | o, .set cs => cs.typed o
+  | o, .seq a b => a.typedB o && b.typedB (a.own o)
+  | o, .ifThen c body => c.typedB o && body.typedB o
+  | o, .ifElse c body els => c.typedB o && body.typedB o && els.typedB o
+
+/-- **the full-strength statement**: as `C03_partial`, for every well-typed program of the ring fragment, without
+the class exclusions -/
+def C03_full : Prop := ∀ (p : CProg) (k : KStmt) (code : List Insn),
+  compileS (layout p.vars) p.body = some k → k.typedB p.owned = true → emitCProg p = .ok code → ∀ σ : State,
+    ∃ σ', run code (code.length + 1) { σ with pc := 0 } = .fell { σ' with pc := code.length } ∧ k.semZ p.owned σ σ'
+
+def codeOfC (p : CProg) : List Insn := match emitCProg p with | .ok c => c | .error _ => []
+
+theorem codeOfC_ok (p : CProg) (h : (emitCProg p).toOption.isSome = true) : emitCProg p = .ok (codeOfC p) := by
+  unfold codeOfC
+  cases hc : emitCProg p with
+  | ok c => rfl
+  | error e => rw [hc] at h; simp [Except.toOption] at h
+
+/-- truth value (Python integers) of the first condition of a program, `true` if it cannot be built -/
+def truthOf (p : CProg) (c : SCond) (σ : State) : Bool :=
+  match elabC (layout p.vars) c with | .ok o => o.truth σ | .error _ => true
+
+def classesOf (p : CProg) : List String := progClasses (layout p.vars) p.owned p.body
+
+instance (w : Nat) (z : Int) : Decidable (fitsS w z) := by unfold fitsS; infer_instance
+instance (w : Nat) (z : Int) : Decidable (fitsU w z) := by unfold fitsU; infer_instance
+
+/-- *u64-vs-negative-short*: `with self.r5 <= self.lsi: self.r6 = 1` with r5 = 256, lsi = −2³¹: the right side is
+loaded zero-extended and compared in 64 bits, the body runs although 256 ≤ −2³¹ is false -/
+def cU : SCond := .cmp .le (.reg .r 5) (.var "lsi")
+def pU : CProg := ⟨[5, 6, 10], [⟨"lsi", .i, .loc⟩], .ifThen cU (.set (.reg .r 6) (.c 1))⟩
+def sU : State := st0 [(5, 256), (6, 0), (10, 4096)] [(4095, 128)]
+
+theorem u64_vs_negative_short_refuted : (emitCProg pU).toOption.isSome = true ∧
+    classesOf pU = ["u64-vs-negative-short"] ∧ regAfter (codeOfC pU) sU 6 = 1 ∧ truthOf pU cU sU = false := by
+  decide +kernel
+
+/-- *narrow-reg-in-64* at the comparison: `with self.w1 > 32767: self.r6 = 1` with r1 = 2³² (w1 = 0): all 64
+bits of the register are compared -/
+def cN : SCond := .cmp .gt (.reg .w 1) (.c 32767)
+def pN : CProg := ⟨[1, 6, 10], [], .ifThen cN (.set (.reg .r 6) (.c 1))⟩
+def sN : State := st0 [(1, 4294967296), (6, 0), (10, 4096)]
+
+theorem narrow_reg_in_64_refuted : (emitCProg pN).toOption.isSome = true ∧
+    classesOf pN = ["narrow-reg-in-64"] ∧ regAfter (codeOfC pN) sN 6 = 1 ∧ truthOf pN cN sN = false := by
+  decide +kernel
+
+/-- *widen-in-place*: `with self.w8 <= self.sr1: pass` sign-extends r8 itself (`r8 <<= 32; r8 s>>= 32`) -/
+def pW : CProg := ⟨[1, 8, 10], [], .ifThen (.cmp .le (.reg .w 8) (.reg .sr 1)) .skip⟩
+def sW : State := st0 [(1, 5), (8, 4520593757), (10, 4096)]
+
+theorem widen_in_place_refuted : (emitCProg pW).toOption.isSome = true ∧
+    classesOf pW = ["widen-in-place"] ∧ regAfter (codeOfC pW) sW 8 = 225626461 := by
+  decide +kernel
+
+/-- *unary-in-place* (inherited from C01): `with self.w1 < -self.w4: pass` negates r4 itself -/
+def pI : CProg := ⟨[1, 4, 10], [], .ifThen (.cmp .lt (.reg .w 1) (.neg (.reg .w 4))) .skip⟩
+def sI : State := st0 [(1, 5), (4, 3), (10, 4096)]
+
+theorem unary_in_place_refuted : (emitCProg pI).toOption.isSome = true ∧
+    "unary-in-place" ∈ classesOf pI ∧ regAfter (codeOfC pI) sI 4 = 4294967293 := by
+  decide +kernel
+
+/-- *unary-32-in-64* (inherited from C01): `with self.lsq > -self.lsh: self.r6 = 1` with lsq = lsh = 3: −3 is
+computed in 32 bits and zero-extended, the body does not run although 3 > −3 -/
+def cM : SCond := .cmp .gt (.var "lsq") (.neg (.var "lsh"))
+def pM : CProg := ⟨[6, 10], [⟨"lsq", .q, .loc⟩, ⟨"lsh", .h, .loc⟩], .ifThen cM (.set (.reg .r 6) (.c 1))⟩
+def sM : State := st0 [(6, 0), (10, 4096)] [(4088, 3), (4086, 3)]
+
+theorem unary_32_in_64_refuted : (emitCProg pM).toOption.isSome = true ∧
+    classesOf pM = ["unary-32-in-64"] ∧ regAfter (codeOfC pM) sM 6 = 0 ∧ truthOf pM cM sM = true := by
+  decide +kernel
+
+/-- *const-left-32*: `with 5 - self.lsq > 0: self.r6 = 1` with lsq = 2³² + 1: the subtraction is done in 32 bits
+(width of the constant on the left), the body runs although 5 − lsq is negative -/
+def cC : SCond := .cmp .gt (.bin .sub (.c 5) (.var "lsq")) (.c 0)
+def pC : CProg := ⟨[6, 10], [⟨"lsq", .q, .loc⟩], .ifThen cC (.set (.reg .r 6) (.c 1))⟩
+def sC : State := st0 [(6, 0), (10, 4096)] [(4088, 1), (4092, 1)]
+
+theorem const_left_32_refuted : (emitCProg pC).toOption.isSome = true ∧
+    classesOf pC = ["const-left-32"] ∧ regAfter (codeOfC pC) sC 6 = 1 ∧ truthOf pC cC sC = false := by
+  decide +kernel
+
+deriving instance DecidableEq for KStmt
+
+/-- the elaborated witness program of *u64-vs-negative-short* -/
+def cUo : CObj := .simple .le true (.reg 5 true false) (.mem .i (sumAddr 10 (-4)))
+def kU : KStmt := .ifThen cUo (.set (.reg 6 true (.const 1)))
+
+/-- **the unchanged generator violates the full-strength statement** -/
+theorem C03_full_refuted : ¬ C03_full := by
+  intro h
+  obtain ⟨hacc, _, hreg, _⟩ := u64_vs_negative_short_refuted
+  have hk : compileS (layout pU.vars) pU.body = some kU := by decide +kernel
+  have htyped : kU.typedB pU.owned = true := by decide +kernel
+  obtain ⟨σ', hrun, hsem⟩ := h pU kU (codeOfC pU) hk htyped (codeOfC_ok pU hacc) sU
+  simp only [kU, KStmt.semZ] at hsem
+  have hpre : cUo.pre sU := by
+    simp only [cUo, CObj.pre, atomPre]
+    refine ⟨by simp [shiftsOk], fun _ => by simp [shiftsOk], ?_⟩
+    decide +kernel
+  obtain ⟨σ1, hk1, hrest⟩ := hsem hpre
+  have ht : cUo.truth sU = false := by decide +kernel
+  rw [ht] at hrest
+  simp only [Bool.false_eq_true, if_false] at hrest
+  have h6 : σ'.regs 6 = sU.regs 6 := by
+    rw [hrest.1 6 (by decide), hk1.1 6 (by decide)]
+  have := regAfter_of_run (k := 6) hrun
+  have e : ({ sU with pc := 0 } : State) = sU := rfl
+  rw [e, hreg, h6] at this
+  revert this
+  decide +kernel
+
+/-! ## non-vacuity -/
+
+def vvars : List VarDecl := [⟨"vq", .q, .loc⟩, ⟨"vi", .i, .loc⟩, ⟨"vB", .B, .loc⟩, ⟨"res", .Q, .loc⟩]
+def mark (n : Int) : SStmt := .set (.var "res") (.bin .or (.var "res") (.c n))
+
+/-- nested `with` / `Else` blocks over `&`, `|`, `~`, a signed mixed-width comparison that is widened, a 32-bit
+comparison, an unsigned one, a bit test with `Else` (the splice) and an expression used as condition:
+```
+with (self.vi < self.vq) & ~(self.vB >= 7) as Else:
+    res |= 1
+    with self.r3 & 0x80 as Else:  res |= 2
+    with Else:                    res |= 4
+with Else:
+    with (self.sw4 + self.vi > -5) | (self.r3 != 0):  res |= 8
+res |= 16
+```
+satisfies every hypothesis of `C03_partial` and is accepted by the generator -/
+def pGood : CProg := ⟨[3, 4, 10], vvars,
+  .seq (.ifElse (.and (.cmp .lt (.var "vi") (.var "vq")) (.not (.cmp .ge (.var "vB") (.c 7))))
+      (.seq (mark 1) (.ifElse (.truth (.bin .and (.reg .r 3) (.c 128))) (mark 2) (mark 4)))
+      (.ifThen (.or (.cmp .gt (.bin .add (.reg .sw 4) (.var "vi")) (.c (-5))) (.cmp .ne (.reg .r 3) (.c 0))) (mark 8)))
+    (mark 16)⟩
+
+example : progOkC pGood = true ∧ (emitCProg pGood).toOption.isSome = true ∧ (codeOfC pGood).length = 30 := by
+  decide +kernel
+
 end Ebv.C03
